@@ -1,0 +1,28 @@
+//go:build verif
+
+// Machine-checked contracts for package metadb, consumed by /verif/bin/walvc.
+// This file contains no code. bbolt and os are modelled as ghost event traces.
+
+package metadb
+
+//@ -- the metadata DB first appears under its final name only complete:
+//@ -- create under a temporary name, commit, close, rename, fsync the directory
+//@ func safeInitBoltDB
+//@   props C03 C07
+//@   ensures[C07.metadb-init] result == nil ==> traced("removeall(wal-meta.db.tmp)", "boltopen(wal-meta.db.tmp)", "begin(rw)", "createbucket(wal-meta)", "createbucket(stable)", "boltcommit", "boltclose", "rename(wal-meta.db.tmp,wal-meta.db)", "open(dir)", "fsync(dir)")
+//@   ensures[C07.metadb-init-no-early-rename] nevent("rename(wal-meta.db.tmp,wal-meta.db)") <= 1
+
+//@ func (*BoltMetaDB).CommitState
+//@   props C08 C09
+//@   ensures[C08.commit-isolated] nevent("bucket(stable)") == 0
+//@   ensures[C09.meta-location] result == nil ==> traced("begin(rw)", "bucket(wal-meta)", "put(bucket:wal-meta,m)", "boltcommit")
+
+//@ func (*BoltMetaDB).SetStable
+//@   props C08
+//@   ensures[C08.set-isolated] nevent("bucket(wal-meta)") == 0
+//@   ensures[C08.set-one-txn] result == nil ==> traced("begin(rw)", "bucket(stable)", "boltcommit") && nevent("begin(rw)") == 1 && nevent("boltcommit") == 1
+
+//@ func (*BoltMetaDB).GetStable
+//@   props C08
+//@   ensures[C08.get-isolated] nevent("bucket(wal-meta)") == 0 && nevent("begin(rw)") == 0
+//@   ensures[C08.get-copies] result1 == nil ==> result0 == nil || fresh(result0)
